@@ -140,10 +140,22 @@ class Gen:
         have_pk = False
         style = r.random()
         self.strict = self.coin(0.05)       # a STRICT table (SQLite 3.37+): only the six strict type names
-        for n in names:
+        generated = []
+        for ni, n in enumerate(names):
+            if ni > 0 and not self.strict and self.coin(0.04):
+                # a generated column (not stored when VIRTUAL, which is the default): "b AS (1)" is the shortest spelling
+                ex = r.choice(["1", "7", "%s" % names[0], "%s + 1" % names[0], "'g'"])
+                c = r.choice(["%s AS (%s)", "%s AS (%s) VIRTUAL", "%s AS (%s) STORED", "%s INT GENERATED ALWAYS AS (%s)", "%s GENERATED ALWAYS AS (%s) STORED"]) % (n, ex)
+                cols.append(c)
+                generated.append(ni)
+                continue
             c, info = self.column(n, allow_pk=(not have_pk and style < 0.6), tabcols=names)
             have_pk = have_pk or info["pk"]
             cols.append(c)
+        # comments are part of the text SQLite keeps in sqlite_master; "--1" must not be read as arithmetic
+        if self.coin(0.08):
+            k = r.randrange(len(cols))
+            cols[k] = cols[k] + r.choice([" -- a note\n", " /* a note */", " --1\n", " /* multi\nline */ ", " -- it''s, (odd) \"chars\"\n"])
         tcons = []
         if not have_pk and self.coin(0.5):
             tcons.append("PRIMARY KEY (" + ", ".join(self.indexed_cols(names)) + ")" + (" ON CONFLICT REPLACE" if self.coin(0.02) else ""))
@@ -187,7 +199,7 @@ class Gen:
             if self.coin(0.2):
                 where = " WHERE " + r.choice(["%s IS NOT NULL", "%s > 5", "%s <> ''", "%s > 5", "%s < 'm'", "%s + 1 > 3"]) % names[0]
             indexes.append({"name": iname, "unique": self.coin(0.2), "cols": icols, "where": where})
-        return {"name": tname, "cols": cols, "tcons": tcons2, "suffix": suffix, "indexes": indexes}
+        return {"name": tname, "cols": cols, "tcons": tcons2, "suffix": suffix, "indexes": indexes, "generated": generated, "names": names}
 
 
 def table_sql(p, cols=None, tcons=None):
@@ -254,13 +266,17 @@ def handle(req):
                 for s in stmts:
                     conn.execute(s)
                 ncol = len(p["cols"])
+                stored = [j for j in range(ncol) if j not in p.get("generated", [])]
+                collist = ""
+                if len(stored) != ncol:
+                    collist = "(" + ", ".join(p["names"][j] for j in stored) + ")"
                 for rr in range(6):
                     vals = []
-                    for j in range(ncol):
+                    for j in stored:
                         k = (rr * 7 + j * 3 + seq) % 5
                         vals.append([rr * 10 + j + 1, "v%d_%d" % (rr, j), "V%d_%d " % (rr, j), 1.5 + rr + j, 100 - rr * 3 - j][k])
                     try:
-                        conn.execute("insert or ignore into %s values(%s)" % (p["name"], ",".join("?" * ncol)), vals)
+                        conn.execute("insert or ignore into %s%s values(%s)" % (p["name"], collist, ",".join("?" * len(stored))), vals)
                     except sqlite3.Error:
                         pass
                 conn.execute("release s")
